@@ -23,6 +23,15 @@ class It:
     short_name: str
     pay: int
 
+    def __len__(self):
+        # a named collection: items with payload 0 are empty, i.e. false in a boolean context
+        return self.pay
+
+
+class Unnamed:
+    """an object which cannot be named (its short name is no string)"""
+    short_name = 5
+
 
 NAME_POOL = ["a", "a", "a_2", "as", "9x", "append", "copy", "x_", "x_2", "_item_dict", "keys",
              "b", "a_", "None", "__len__", "a_3", "__tag__", "__tag__", "_x", "__"]
@@ -46,7 +55,7 @@ def gen_op(rng, alpha, step):
     if k == "extend":
         # the argument is a plain list or itself a NamedItemList (names computed in another name space)
         # ... or a one-shot iterable (a generator can be walked once only)
-        return ["extend", [rng.randrange(len(alpha)) for _ in range(rng.randint(0, 3))]] + rng.choice([[], [], ["nil"], ["nil"], ["iter"]])
+        return ["extend", [rng.randrange(len(alpha)) for _ in range(rng.randint(0, 3))]] + rng.choice([[], [], ["nil"], ["nil"], ["iter"], ["bad"]])
     if k == "remove":
         return ["remove", rng.randrange(len(alpha))]
     if k == "pop":
@@ -63,7 +72,7 @@ def all_ops(alpha_n):
         ops.append(["insert", 0, i])
         ops.append(["insert", -1, i])
     ops += [["pop", -1], ["pop", 0], ["pop", 1], ["clear"], ["copy"], ["ccopy"], ["deepcopy"],
-            ["pickle"], ["extend", [0, 0]], ["extend", [1, 0]], ["extend", [1, 0], "nil"], ["extend", [1, 0], "iter"], ["copy", "keep"]]
+            ["pickle"], ["extend", [0, 0]], ["extend", [1, 0]], ["extend", [1, 0], "nil"], ["extend", [1, 0], "iter"], ["extend", [1, 0], "bad"], ["copy", "keep"]]
     return ops
 
 
@@ -159,7 +168,17 @@ def run_impl(alpha, ops, reserved):
                 nil.insert(o[1], objs[o[2]])
             elif k == "extend":
                 arg = [objs[i] for i in o[1]]
-                nil.extend(NamedItemList(arg) if o[-1] == "nil" else (x for x in arg) if o[-1] == "iter" else arg)
+                if o[-1] == "bad":
+                    # proper items followed by an object which cannot be named: the call fails (OdxError); the items in
+                    # front of it are in the list, under their names (the model: extend by the proper items, outcome 3)
+                    from odxtools.exceptions import OdxError
+                    try:
+                        nil.extend(arg + [Unnamed()])
+                        oc = 103
+                    except OdxError:
+                        oc = 3
+                else:
+                    nil.extend(NamedItemList(arg) if o[-1] == "nil" else (x for x in arg) if o[-1] == "iter" else arg)
             elif k == "remove":
                 nil.remove(objs[o[1]])
             elif k == "pop":
@@ -251,6 +270,10 @@ def main(argv=None):
         ck.note_broken("model not built (Run.vo / extracted driver missing)")
     ndis = 0
     for ci, (al, ops) in enumerate(cases):
+        if model_ok:
+            for st_, o_ in enumerate(ops):
+                if o_[0] == "extend" and o_[-1] == "bad" and st_ < len(mres[ci]) and mres[ci][st_][0] == 0:
+                    mres[ci][st_][0] = 3  # the failing call (see run_impl)
         obs, bad = run_impl(al, ops, reserved)
         ck.count((al, ops), nontrivial=len(ops) >= 2)
         ck.hist("history_length", min(len(ops), 50) // 5 * 5)
